@@ -173,7 +173,12 @@ def judge(ctx, rname, data, enum=False, as_view=False):
     lib, ref, reenc, tags = READERS[rname]
     ctx.ev()
     want = ref(data)
-    arg = memoryview(data) if as_view else data
+    if as_view:
+        # rotate through the bytes-like types a caller may hand over
+        k = (len(data) + (data[-1] if data else 0)) % 3
+        arg = memoryview(data) if k == 0 else (memoryview(bytearray(data)) if k == 1 else bytearray(data))
+    else:
+        arg = data
     case = {"reader": rname, "data": data.hex(), "view": as_view}
     ctx.case_sample(case)
     try:
